@@ -524,8 +524,8 @@ impl VisitMut for Rw {
                 }
                 // an await while a guard of this block (or an enclosing one) is live must be justified
                 let live: Vec<String> = self.live_guards.iter().chain(declared.iter()).cloned().collect();
-                if !live.is_empty() && stmt_has_foreign_await(&st) {
-                    for g in &live {
+                for g in &live {
+                    if stmt_has_foreign_await(&st, g) {
                         let id = Ident::new(g, Span::call_site());
                         out.push(parse_quote!(vx_await_check!(#id);));
                     }
@@ -1136,20 +1136,35 @@ impl Rw {
 
 /// does the statement itself (not a nested block, which is handled when that block is visited) await something other than
 /// another mutex?
-fn stmt_has_foreign_await(st: &Stmt) -> bool {
-    struct F(bool);
-    impl<'a> syn::visit::Visit<'a> for F {
+/// does the statement wait for something other than a lock acquisition, or an operation performed THROUGH the guard `g`
+/// itself (`g.send(x).await`: using the locked object is what the lock is held for)?
+fn stmt_has_foreign_await(st: &Stmt, g: &str) -> bool {
+    fn root_ident(e: &Expr) -> Option<String> {
+        match e {
+            Expr::MethodCall(m) => root_ident(&m.receiver),
+            Expr::Field(f) => root_ident(&f.base),
+            Expr::Paren(p) => root_ident(&p.expr),
+            Expr::Reference(r) => root_ident(&r.expr),
+            Expr::Unary(u) => root_ident(&u.expr),
+            Expr::Try(t) => root_ident(&t.expr),
+            Expr::Path(p) => p.path.get_ident().map(|i| i.to_string()),
+            _ => None,
+        }
+    }
+    struct F<'g>(bool, &'g str);
+    impl<'a, 'g> syn::visit::Visit<'a> for F<'g> {
         fn visit_expr_await(&mut self, a: &'a ExprAwait) {
             let s = a.base.to_token_stream().to_string();
             let t = s.trim_end();
-            if !(t.ends_with(". lock ()") || t.ends_with(". read ()") || t.ends_with(". write ()")) {
+            let through_guard = matches!(&*a.base, Expr::MethodCall(_)) && root_ident(&a.base).map_or(false, |r| r == self.1);
+            if !(t.ends_with(". lock ()") || t.ends_with(". read ()") || t.ends_with(". write ()")) && !through_guard {
                 self.0 = true;
             }
             syn::visit::visit_expr_await(self, a);
         }
         fn visit_block(&mut self, _b: &'a Block) {}
     }
-    let mut f = F(false);
+    let mut f = F(false, g);
     syn::visit::Visit::visit_stmt(&mut f, st);
     f.0
 }
